@@ -36,10 +36,15 @@ def r08a(run):
                   construct="get_params not dominated by resolve_forward_refs",
                   message=f"{body_q}: resolve_forward_refs() does not dominate get_params()",
                   necessity="the first call with still unresolved annotations parses against ForwardRef objects")
+        ctxname = "context"
         if gp:
             c = gp[0][1]
-            sigs[body_q] = ([unparse(a) for a in c.args], sorted((k.arg, unparse(k.value)) for k in c.keywords))
             ctxv = kwarg(c, "context")
+            if isinstance(ctxv, ast.Name):
+                ctxname = ctxv.id       # the per-call context, under whatever local name
+            sigs[body_q] = ([unparse(a) for a in c.args], sorted(
+                (k.arg, "<per-call context>" if k.arg == "context" and isinstance(k.value, ast.Name) else unparse(k.value))
+                for k in c.keywords))
             ok = ctxv is not None and isinstance(ctxv, ast.Name)
             if ok and cf is bf:
                 ok = all(d in [n for n, _ in mk] for d in ba.rd.defs_of(gp[0][0], ctxv.id))
@@ -54,8 +59,8 @@ def r08a(run):
             message=f"{body_q}: result parsing is missing or not guarded by exactly the parse_result flag",
             necessity="results are returned unconverted although a return annotation is declared (or converted when disabled)")
         for n, c in res:
-            ctx_ok = any(isinstance(a, ast.Name) and a.id == "context" for a in c.args) or (
-                kwarg(c, "context") is not None and unparse(kwarg(c, "context")) == "context")
+            ctx_ok = any(isinstance(a, ast.Name) and a.id == ctxname for a in c.args) or (
+                kwarg(c, "context") is not None and unparse(kwarg(c, "context")) == ctxname)
             run.check("R08a", bf, f"`{call_attr(c)}` uses the same per-call context", ctx_ok,
                       construct="result parsed in another context", message=f"{body_q}: `{unparse(c)[:60]}` is not "
                       f"given the call's context", node=c)
